@@ -154,8 +154,7 @@ Theorem C18_levy_is_mantegna : forall (Gamma : R -> R) (beta : R) (g : nat -> R)
   0 < beta <= 2 -> g 1%nat <> 0 -> (forall t, 0 < t -> 0 < Gamma t) ->
   lden Gamma beta g levy_code = Some (mantegna Gamma beta (g 0%nat) (g 1%nat)).
 Proof.
-  intros Gamma beta g Hb Hg GP. unfold levy_code. levy_eval Hb GP.
-  try reflexivity; f_equal; unfold mantegna, sigma, sigma_ratio; try field; levy_side Hb GP.
+  intros Gamma beta g Hb Hg GP. unfold levy_code. levy_eval Hb GP. levy_close Hb GP.
 Qed.
 
 Theorem C18_levy_consumes_two_standard_gaussian_draws :
@@ -171,7 +170,7 @@ Proof. intros G b Hb GP. split; [apply sigma_pos | apply sigma_at_two]; assumpti
 Open Scope Z_scope.
 Example C18_nonvacuous_tournament :
   (* fitness [3.0; -0.0; +0.0; -2.0; -2.0] as keys; rounds draw positions (1,2) (2,1) (4,3) (0,0) *)
-  tournament tournament_size [4613937818241073152; -1; 0; -4611686018427387905; -4611686018427387905] 4
+  tournament 2 [4613937818241073152; -1; 0; -4611686018427387905; -4611686018427387905] 4
              [1; 2; 2; 1; 4; 3; 0; 0]%nat = Some ([1; 1; 3; 0]%nat, []).
 Proof. vm_compute. reflexivity. Qed.
 
